@@ -7,7 +7,7 @@
 (* there (rows, their text, the description column).  Equality with the    *)
 (* specification's own layout is a fidelity figure (DRIFT), not a verdict. *)
 (***************************************************************************)
-EXTENDS HelpProps, FTab, Json
+EXTENDS Man, FTab, Json
 
 VARIABLE l
 TraceRecs == ndJsonDeserialize("trace.ndjson")
@@ -35,7 +35,7 @@ Judge(rec) ==
               ELSE IF isHelp THEN (okKind => ContentOK(o.lines, s0, chain, pre))
               ELSE ManOK(o.lines, s0),
       C15 |-> crashed \/ o.distinct = 1,
-      DRIFT |-> crashed \/ ~isHelp \/ ~okKind \/ o.lines = spec \/ HasPanic(spec),
+      DRIFT |-> crashed \/ (IF isHelp THEN (~okKind \/ o.lines = spec \/ HasPanic(spec)) ELSE ManExact(o.lines, s0)),
       help |-> B(isHelp), man |-> B(~isHelp), deep |-> B(Len(chain) > 1), narrow |-> B(rec.width > 0 /\ rec.width < 40),
       wide |-> B(rec.width >= 100), panics |-> B(crashed), specpanic |-> B(isHelp /\ HasPanic(spec))]
 
